@@ -309,6 +309,24 @@ class History:
         self.gated = {i: 0 for i in range(1, nsess + 1)}
         self.reselect = {i: 0 for i in range(1, nsess + 1)}
         self.size_hint = {b: 0 for b in self.boxes}
+        self.snaps = []  # per step: (before, after) white-box snapshots, for the property oracles
+
+    def snapshot(self, w):
+        boxes = {}
+        for b in self.boxes:
+            mb = w.server.active_mailboxes.get(b)
+            if mb is not None:
+                boxes[b] = {"uids": list(mb.uids), "keys": list(mb.msg_keys),
+                            "seqs": {k: sorted(v) for k, v in mb.sequences.items() if v},
+                            "next": mb.next_uid, "vv": mb.uid_vv}
+        sess = {}
+        for i in range(1, self.nsess + 1):
+            h = w.handler(SESS[i])
+            sess[i] = {"sel": h.mbox.name if h.mbox is not None else None, "idle": bool(h.idling),
+                       "exam": bool(getattr(h, "examine", False)),
+                       "pend_expunge": any("EXPUNGE" in x for x in h.pending_notifications),
+                       "pend": len(h.pending_notifications)}
+        return {"boxes": boxes, "sess": sess}
 
     # ---- random pieces
     def rset(self, n, uid=False):
@@ -344,6 +362,25 @@ class History:
                 "fetch": 9, "search": 3, "expunge": 7, "copy": 4, "move": 3, "deliver": 5, "poll": 3}
         base.update(self.mix)
         kinds = list(base)
+        # steer towards the interesting situation: somebody has EXPUNGEs queued -> make its mailbox grow
+        snap = self.snaps[-1][1] if self.snaps and self.snaps[-1][1] else None
+        if snap and rng.random() < 0.5:
+            waiting = [(sid, st["sel"]) for sid, st in snap["sess"].items() if st["pend_expunge"] and st["sel"]]
+            if waiting:
+                sid, box = rng.choice(waiting)
+                others = [i for i in self.idle if i != sid and not self.idle[i]]
+                r = rng.random()
+                if r < 0.45 and others:
+                    cid = self.next_cid
+                    self.next_cid += 1
+                    return ("append", rng.choice(others), box, [], BASE_DATE + 3600 * rng.randint(0, 200), cid)
+                if r < 0.75:
+                    cid = self.next_cid
+                    nn = rng.choice([1, 2])
+                    self.next_cid += nn
+                    return ("deliver", box, nn, rng.random() < 0.7, cid, BASE_DATE + 3600 * rng.randint(0, 200))
+                if r < 0.9:
+                    return ("poll",)
         s = rng.randint(1, self.nsess)
         if self.idle[s]:
             if rng.random() < 0.5:
@@ -433,13 +470,16 @@ class History:
                     op = ("mkbox", b)
                     self.ops.append(op)
                     self.obs.append(run_op(w, op))
+                    self.snaps.append((None, None))
         for _ in range(nops):
             op = self.choose()
             issuer = SESS.get(op[1]) if len(op) > 1 and isinstance(op[1], int) else None
             # run, collecting the issuer's own output (cmd() returns it) and everyone else's
+            pre = self.snapshot(w)
             obs = self._run(w, op, issuer)
             self.ops.append(op)
             self.obs.append(obs)
+            self.snaps.append((pre, self.snapshot(w)))
             self.note(w, op, obs)
 
     def _run(self, w, op, issuer):
@@ -519,3 +559,94 @@ def model_output_at(ctx, h: History, step: int) -> str:
         return core.parse_coq_values(out)[0]
     except Exception as e:  # diagnostics only
         return f"<unavailable: {e}>"
+
+
+# ------------------------------------------------------------------ parallel generation
+def _worker(args):
+    seed, nops, nsess_choices, mix, pack, boxes = args
+    import random
+
+    rng = random.Random(seed)
+    h = History(rng, nsess=rng.choice(nsess_choices), mix=mix, pack=pack, boxes=boxes)
+    w = W.World(seed=seed, pack_limits=(pack[0], pack[1] / pack[2]) if pack else None)
+    try:
+        h.run(w, nops)
+        err = None
+    except Exception as e:  # the implementation (or the driver) blew up: keep what we have
+        import traceback
+
+        err = traceback.format_exc()[-1500:]
+    finally:
+        w.close()
+    h.rng = None
+    h.error = err
+    h.seed = seed
+    return h
+
+
+def generate(ctx, n, nops, nsess_choices=(1, 2, 2, 3), mix=None, pack=None, boxes=("inbox", "work")):
+    import multiprocessing as mp
+
+    seeds = [ctx.rng.randrange(1 << 30) for _ in range(n)]
+    args = [(sd, nops, nsess_choices, mix, pack, boxes) for sd in seeds]
+    with mp.get_context("fork").Pool(min(core.NPROC, max(1, n))) as pool:
+        return pool.map(_worker, args, chunksize=1)
+
+
+# ------------------------------------------------------------------ C01 oracle on the implementation's own streams
+def replay_oracle(h: History):
+    """replays EXISTS/EXPUNGE/FETCH per session (by count) and checks the property's clauses on
+    the bytes the implementation actually sent.  Returns a list of (step, description)."""
+    bad = []
+    count = {}
+    for k, (op, obs) in enumerate(zip(h.ops, h.obs)):
+        issuer = op[1] if len(op) > 1 and isinstance(op[1], int) else None
+        pre, post = h.snaps[k]
+        for sid, rs in obs.items():
+            if op[0] == "select" and sid == issuer:
+                count.pop(sid, None)
+                for r in rs:
+                    if r[0] == "exists":
+                        count[sid] = r[1]
+                continue
+            if sid not in count:
+                continue
+            for r in rs:
+                if r[0] == "exists":
+                    if r[1] < count[sid]:
+                        bad.append((k, f"session {sid}: EXISTS {r[1]} below the replayed count {count[sid]}"))
+                    count[sid] = r[1]
+                elif r[0] == "expunge":
+                    if not (1 <= r[1] <= count[sid]):
+                        bad.append((k, f"session {sid}: EXPUNGE {r[1]} outside the replayed view of {count[sid]}"))
+                    else:
+                        count[sid] -= 1
+                    if sid == issuer and op[0] in ("fetch", "store", "search") and not op[2]:
+                        bad.append((k, f"session {sid}: EXPUNGE sent during its own non-UID {op[0].upper()}"))
+                elif r[0] in ("fetch", "body"):
+                    if not (1 <= r[1] <= count[sid]):
+                        bad.append((k, f"session {sid}: FETCH {r[1]} outside the replayed view of {count[sid]}"))
+        if issuer is not None and op[0] in ("unselect", "close") and obs.get(issuer) and obs[issuer][-1][0] == "ok":
+            count.pop(issuer, None)
+        if op[0] == "select" and issuer in count and not (obs.get(issuer) and obs[issuer][-1][0] == "ok"):
+            count.pop(issuer, None)
+        # after a flush the view equals the server's list
+        if issuer in count and op[0] in ("noop", "check", "done") and post and post["sess"][issuer]["sel"]:
+            box = post["sess"][issuer]["sel"]
+            n = len(post["boxes"][box]["uids"]) if box in post["boxes"] else None
+            if n is not None and n != count[issuer]:
+                bad.append((k, f"session {issuer}: after {op[0].upper()} the replayed view has {count[issuer]} messages, the server {n}"))
+    return bad
+
+
+def d1_condition(h: History) -> bool:
+    """some session had EXPUNGEs queued while its mailbox grew"""
+    for k in range(len(h.ops)):
+        pre, post = h.snaps[k]
+        if not pre:
+            continue
+        for sid, st in pre["sess"].items():
+            if st["pend_expunge"] and st["sel"] in pre["boxes"] and st["sel"] in post["boxes"]:
+                if set(post["boxes"][st["sel"]]["uids"]) - set(pre["boxes"][st["sel"]]["uids"]):
+                    return True
+    return False
